@@ -599,6 +599,9 @@ func (b *builder) build(s *Spec, label string) gen.V {
 		f = map[string]gen.V{"Ref": absint.Cat(absint.Lit("#/$defs/"), absint.HoleStr(b.atom(s, "RawStr", "name of a definition that does not exist", true)))}
 	case "bad-pointer":
 		f = map[string]gen.V{"Ref": absint.Lit("#/properties/x")}
+	case "empty-definition-name":
+		// the JSON pointer names the member "" of $defs, which does not exist
+		f = map[string]gen.V{"Ref": absint.Lit("#/$defs/")}
 	case "null-definition":
 		b.defKeys = append(b.defKeys, absint.HoleStr(b.atom(s, "RawStr", "name of the null definition", true)))
 		b.defVals = append(b.defVals, absint.Ptr{})
